@@ -21,7 +21,8 @@ var metaVals = []string{"Foo", "x", "int64", "1", "json,omitempty", "a b", "v2",
 type genCfg struct {
 	maxDepth  int
 	clean     bool // names from the clean pool only
-	noInfo    bool // no meta / validation / docs (plain structure)
+	noInfo    bool // no meta / validation / description (plain structure)
+	lossy     bool // also Docs and ContentType, which Dup does not copy (witness stream)
 	maxUsers  int
 	maxFields int
 }
@@ -125,7 +126,7 @@ func (g *gen) att(depth int, outside []int) *Att {
 		if g.r.Chance(1, 5) {
 			a.Desc = vh.Pick(g.r, []string{"desc", "the thing", "x"})
 		}
-		if g.r.Chance(1, 12) {
+		if g.cfg.lossy && g.r.Chance(1, 6) {
 			a.Docs = "http://docs/" + vh.Pick(g.r, []string{"a", "b"})
 		}
 		if g.r.Chance(1, 10) {
@@ -197,7 +198,7 @@ func (g *gen) graph() *Graph {
 		if g.r.Chance(1, 3) {
 			u.Result = true
 			u.Identifier = fmt.Sprintf("application/vnd.r%d", i)
-			if g.r.Chance(1, 3) {
+			if g.cfg.lossy && g.r.Chance(1, 2) {
 				u.ContentType = "application/json"
 			}
 		}
@@ -227,6 +228,13 @@ func (g *gen) graph() *Graph {
 			u.Att = &Att{T: g.typ(d, lower)}
 		}
 		u.Att.Meta = g.meta(!u.Result)
+		for k := range u.Att.Meta {
+			// Name() and, without a UID, ID() follow this entry: keep ID()s pairwise distinct
+			// (the memo of Dup is keyed by ID(); the envelope of the property has unique IDs)
+			if u.Att.Meta[k].K == "struct:type:name" {
+				u.Att.Meta[k].V[0] = fmt.Sprintf("Renamed%d", i)
+			}
+		}
 		u.Att.Val = g.val(u.Att.T)
 		if u.Result {
 			nv := g.r.Intn(3)
@@ -257,53 +265,58 @@ func (g *gen) graph() *Graph {
 
 // ---- the class in which Equal is expected to decide structural equality ----
 
-// endsOpen: the hash of t (as Equal computes it) ends with the attribute list of an
-// object, which has no closing delimiter.
-func (gr *Graph) endsOpen(t *Type, visiting map[int]bool) bool {
+// ends tells how the hash of t (as Equal computes it) ends: dash = with the attribute
+// list of an object, star = with the value list of a union; neither list has a closing
+// delimiter.
+func (gr *Graph) ends(t *Type, visiting map[int]bool) (dash, star bool) {
 	switch t.K {
 	case "object":
-		return true
-	case "array":
-		return gr.endsOpen(t.Elem.T, visiting)
-	case "map":
-		return gr.endsOpen(t.Elem.T, visiting)
-	case "union":
-		if len(t.Fields) == 0 {
-			return false
+		dash = true
+		if len(t.Fields) > 0 {
+			fs := append([]Field{}, t.Fields...)
+			sort.SliceStable(fs, func(i, j int) bool { return fs[i].Name < fs[j].Name })
+			_, star = gr.ends(fs[len(fs)-1].Att.T, visiting)
 		}
-		fs := append([]Field{}, t.Fields...)
-		sort.SliceStable(fs, func(i, j int) bool { return fs[i].Name < fs[j].Name })
-		return gr.endsOpen(fs[len(fs)-1].Att.T, visiting)
+		return
+	case "array":
+		return gr.ends(t.Elem.T, visiting)
+	case "map":
+		return gr.ends(t.Elem.T, visiting)
+	case "union":
+		star = true
+		if len(t.Fields) > 0 {
+			fs := append([]Field{}, t.Fields...)
+			sort.SliceStable(fs, func(i, j int) bool { return fs[i].Name < fs[j].Name })
+			dash, _ = gr.ends(fs[len(fs)-1].Att.T, visiting)
+		}
+		return
 	case "user":
 		if visiting[t.Ref] {
-			return true
+			return true, true
 		}
 		visiting[t.Ref] = true
 		defer delete(visiting, t.Ref)
-		return gr.endsOpen(gr.Users[t.Ref].Att.T, visiting)
+		return gr.ends(gr.Users[t.Ref].Att.T, visiting)
 	}
-	return false
+	return false, false
 }
 
-const delimiters = "-/+!:|*_[] "
-
-func cleanName(n string) bool { return n != "" && !strings.ContainsAny(n, delimiters) }
-
-// openBeforeSibling returns a description of the first object attribute whose type
-// hash ends in an open attribute list and which is followed by a sibling (in sorted
-// order), or "" when there is none. This is the negation of the hypothesis of
-// hash_sound_partial and the signature of the known collision.
+// openBeforeSibling returns a description of the first object attribute (union value)
+// whose type hash ends in an open attribute (value) list and which is followed by a
+// sibling in sorted order, or "" when there is none. This is the negation of the
+// hypothesis of hash_sound_partial and the signature of the known collision.
 func (gr *Graph) openBeforeSibling() string {
 	res := ""
 	gr.walkTypes(func(t *Type) {
-		if res != "" || t.K != "object" || len(t.Fields) < 2 {
+		if res != "" || (t.K != "object" && t.K != "union") || len(t.Fields) < 2 {
 			return
 		}
 		fs := append([]Field{}, t.Fields...)
 		sort.SliceStable(fs, func(i, j int) bool { return fs[i].Name < fs[j].Name })
 		for _, f := range fs[:len(fs)-1] {
-			if gr.endsOpen(f.Att.T, map[int]bool{}) {
-				res = "attribute " + f.Name
+			dash, star := gr.ends(f.Att.T, map[int]bool{})
+			if (t.K == "object" && dash) || (t.K == "union" && star) {
+				res = t.K + " entry " + f.Name
 				return
 			}
 		}
@@ -311,14 +324,16 @@ func (gr *Graph) openBeforeSibling() string {
 	return res
 }
 
+// namesClean: attribute names without '/', union value names without '|', union type
+// names without '-' ':' '_' (what the parse of hash_sound_partial needs).
 func (gr *Graph) namesClean() bool {
 	ok := true
 	gr.walkTypes(func(t *Type) {
-		if t.K == "union" && !cleanName(t.Name) {
+		if t.K == "union" && (t.Name == "" || strings.ContainsAny(t.Name, "-:_")) {
 			ok = false
 		}
 		for _, f := range t.Fields {
-			if !cleanName(f.Name) {
+			if (t.K == "object" && strings.Contains(f.Name, "/")) || (t.K == "union" && strings.Contains(f.Name, "|")) {
 				ok = false
 			}
 		}
@@ -328,12 +343,12 @@ func (gr *Graph) namesClean() bool {
 
 func (gr *Graph) closed() bool { return gr.namesClean() && gr.openBeforeSibling() == "" }
 
-// repair rewrites the description until it is in the closed class: in every object at
-// most the attribute sorting last keeps an open-ended type.
+// repair rewrites the description until it is in the closed class: in every object
+// (union) at most the entry sorting last keeps an open-ended type.
 func (gr *Graph) repair() {
 	for iter := 0; iter < 50 && gr.openBeforeSibling() != ""; iter++ {
 		gr.walkTypes(func(t *Type) {
-			if t.K != "object" || len(t.Fields) < 2 {
+			if (t.K != "object" && t.K != "union") || len(t.Fields) < 2 {
 				return
 			}
 			idx := make([]int, len(t.Fields))
@@ -342,7 +357,8 @@ func (gr *Graph) repair() {
 			}
 			sort.SliceStable(idx, func(i, j int) bool { return t.Fields[idx[i]].Name < t.Fields[idx[j]].Name })
 			for _, i := range idx[:len(idx)-1] {
-				if gr.endsOpen(t.Fields[i].Att.T, map[int]bool{}) {
+				dash, star := gr.ends(t.Fields[i].Att.T, map[int]bool{})
+				if (t.K == "object" && dash) || (t.K == "union" && star) {
 					t.Fields[i].Att.T = &Type{K: "prim", Prim: "string"}
 					t.Fields[i].Att.Val = nil
 				}
@@ -439,6 +455,42 @@ func (g *gen) neighbour(gr *Graph) (*Graph, string) {
 		}
 	}
 	return nil, ""
+}
+
+// sameUnderEqual: a change that expr.Equal must not see (it ignores user type names,
+// struct:field tags, validations, descriptions and declaration order).
+func (g *gen) sameUnderEqual(gr *Graph) (*Graph, string) {
+	c := gr.clone()
+	var atts []*Att
+	c.walkAtts(func(a *Att) { atts = append(atts, a) })
+	switch k := g.r.Intn(5); {
+	case k == 0 && len(c.Users) > 0:
+		u := &c.Users[g.r.Intn(len(c.Users))]
+		u.Name = u.Name + "Renamed"
+		if u.UID != "" {
+			u.UID += "-renamed"
+		}
+		return c, "rename-user-type"
+	case k <= 1:
+		a := vh.Pick(g.r, atts)
+		key := vh.Pick(g.r, fieldMetaKeys)
+		for i, kv := range a.Meta {
+			if kv.K == key {
+				a.Meta[i].V = []string{"changed"}
+				return c, "change-field-tag"
+			}
+		}
+		a.Meta = append(a.Meta, MetaKV{key, []string{"added"}})
+		return c, "add-field-tag"
+	case k == 2:
+		a := vh.Pick(g.r, atts)
+		a.Desc = "other description"
+		a.Val = &Val{Pattern: "^x$"}
+		return c, "change-validation-description"
+	default:
+		c.walkTypes(func(t *Type) { shuffleFields(g.r, t.Fields) })
+		return c, "reorder"
+	}
 }
 
 // specString: a canonical text of a description node (used for distinct counting)
